@@ -36,6 +36,9 @@ pub struct World<S: Scheme> {
 
 /// setup + trim for an in-domain configuration. Err(outcome) if the library refuses.
 pub fn make_world<S: Scheme>(cfg: &Cfg, rng: &mut ChaCha20Rng) -> Result<World<S>, (String, Out)> {
+    if let Some(w) = S::custom_world(cfg, rng) {
+        return Ok(w);
+    }
     let pp = attempt(|| PcOf::<S>::setup(cfg.max_degree, cfg.num_vars, rng)).map_err(|o| ("setup".to_string(), o))?;
     let (ck, vk) = attempt(|| {
         PcOf::<S>::trim(&pp, cfg.supported_degree, cfg.supported_hiding, cfg.enforced.as_deref())
@@ -168,7 +171,15 @@ pub struct Committed<S: Scheme> {
 
 pub fn commit<S: Scheme>(ck: &CkOf<S>, polys: &[LPoly<S>], seed: u64) -> Result<Committed<S>, Out> {
     let mut r: MonRng<ChaCha20Rng> = mon_rng(seed);
-    let (comms, states) = attempt(|| PcOf::<S>::commit(ck, polys.iter(), Some(&mut r)))?;
+    // API surface: lazy iterators without a length hint for odd seeds; no RNG at all when nothing needs one
+    let no_rng = seed % 4 == 2 && !S::ALWAYS_RNG && polys.iter().all(|p| p.hiding_bound().is_none());
+    let (comms, states) = if no_rng {
+        attempt(|| PcOf::<S>::commit(ck, polys.iter(), None))?
+    } else if seed % 2 == 1 {
+        attempt(|| PcOf::<S>::commit(ck, polys.iter().filter(|_| true), Some(&mut r)))?
+    } else {
+        attempt(|| PcOf::<S>::commit(ck, polys.iter(), Some(&mut r)))?
+    };
     Ok(Committed { comms, states, rng_bytes: r.bytes, rng_calls: r.calls })
 }
 
@@ -323,6 +334,10 @@ pub fn batch_open<S: Scheme>(
     let comms = permuted(&tx.c.comms, perm);
     let states = permuted(&tx.c.states, perm);
     let mut r = mon_rng(rng_seed);
+    if rng_seed % 2 == 1 {
+        // the API takes `impl IntoIterator`: half of the calls hand over lazy iterators without a length hint
+        return attempt(|| PcOf::<S>::batch_open(&tx.w.ck, polys.iter().filter(|_| true), comms.iter().filter(|_| true), qs, sp, states.iter().filter(|_| true), Some(&mut r)));
+    }
     attempt(|| PcOf::<S>::batch_open(&tx.w.ck, polys.iter(), comms.iter(), qs, sp, states.iter(), Some(&mut r)))
 }
 
@@ -336,6 +351,9 @@ pub fn batch_check<S: Scheme>(
     rng_seed: u64,
 ) -> Out {
     let mut r = mon_rng(rng_seed);
+    if rng_seed % 2 == 1 {
+        return decide(|| PcOf::<S>::batch_check(vk, comms.iter().filter(|_| true), qs, evals, proof, sp, &mut r));
+    }
     decide(|| PcOf::<S>::batch_check(vk, comms.iter(), qs, evals, proof, sp, &mut r))
 }
 
@@ -345,6 +363,9 @@ pub fn open<S: Scheme>(tx: &Tx<S>, idx: &[usize], z: &PtOf<S>, sp: &mut Sp<FOf<S
     let comms: Vec<&LComm<S>> = idx.iter().map(|&i| &tx.c.comms[i]).collect();
     let states: Vec<&StateOf<S>> = idx.iter().map(|&i| &tx.c.states[i]).collect();
     let mut r = mon_rng(rng_seed);
+    if rng_seed % 2 == 1 {
+        return attempt(|| PcOf::<S>::open(&tx.w.ck, polys.into_iter().filter(|_| true), comms.into_iter().filter(|_| true), z, sp, states.into_iter().filter(|_| true), Some(&mut r)));
+    }
     attempt(|| PcOf::<S>::open(&tx.w.ck, polys, comms, z, sp, states, Some(&mut r)))
 }
 
@@ -358,5 +379,12 @@ pub fn check<S: Scheme>(
     rng_seed: u64,
 ) -> Out {
     let mut r = mon_rng(rng_seed);
+    if rng_seed % 2 == 1 {
+        return decide(|| PcOf::<S>::check(vk, comms.iter().copied().filter(|_| true), z, values.iter().copied().filter(|_| true), proof, sp, Some(&mut r)));
+    }
+    if rng_seed % 4 == 2 {
+        // single-point verification needs no randomness
+        return decide(|| PcOf::<S>::check(vk, comms.iter().copied(), z, values.iter().copied(), proof, sp, None));
+    }
     decide(|| PcOf::<S>::check(vk, comms.iter().copied(), z, values.iter().copied(), proof, sp, Some(&mut r)))
 }
